@@ -368,6 +368,33 @@ func (p *Prog) callMods(c *ssa.CallCommon, ms *ModSet, visiting map[*ssa.Functio
 			ms.allocates = true
 			return
 		}
+		// phi of parameters / static functions (e.g. "if f == nil { f = defaultF }")
+		if phi, ok := c.Value.(*ssa.Phi); ok {
+			allKnown := true
+			for _, e := range phi.Edges {
+				switch ev := e.(type) {
+				case *ssa.Parameter:
+				case *ssa.Function:
+					if !visiting[ev] {
+						ms.union(p.ModSetOf(ev))
+					}
+				case *ssa.ChangeType:
+					if f, ok := ev.X.(*ssa.Function); ok {
+						if !visiting[f] {
+							ms.union(p.ModSetOf(f))
+						}
+					} else {
+						allKnown = false
+					}
+				default:
+					allKnown = false
+				}
+			}
+			if allKnown {
+				ms.allocates = true
+				return
+			}
+		}
 		// local closure variable? find the MakeClosure feeding it
 		if fn := closureOrigin(c.Value); fn != nil {
 			callee = fn
